@@ -19,8 +19,28 @@ import (
 
 // zzvStore: a DAG service that only records what was added (nothing in the encoded operations reads back).
 type zzvStore struct {
-	mu    sync.Mutex
+	mu    zzvMu20
 	added []ipld.Node
+}
+
+// zzvMu20 is a real mutex natively; under the engine harness code between two synchronisation points of the
+// code under test runs atomically, so harness bookkeeping adds no scheduling points of its own. With model set
+// it is a real (engine-modelled) mutex in both worlds.
+type zzvMu20 struct {
+	m     sync.Mutex
+	model bool
+}
+
+func (m *zzvMu20) Lock() {
+	if m.model || !verifrt.Symbolic() {
+		m.m.Lock()
+	}
+}
+
+func (m *zzvMu20) Unlock() {
+	if m.model || !verifrt.Symbolic() {
+		m.m.Unlock()
+	}
 }
 
 func (s *zzvStore) Add(ctx context.Context, n ipld.Node) error {
@@ -65,7 +85,7 @@ func (s *zzvStore) has(n ipld.Node) bool {
 // Directory.updateChildEntry does) and dirSync reads the child's node under it (as Directory.sync / GetNode /
 // ForEachEntry do for every cached child).
 type zzvParent struct {
-	mu      sync.Mutex
+	mu      zzvMu20 // modelled as a lock under the engine only in scenarios with a dirSync (otherwise nothing contends)
 	updates []child
 	synced  ipld.Node
 	ctx     context.Context
@@ -127,8 +147,9 @@ type zzvWorld struct {
 	node0 ipld.Node
 }
 
-func zzvNewWorld(kind int) *zzvWorld {
+func zzvNewWorld(kind int, dirLock bool) *zzvWorld {
 	w := &zzvWorld{kind: kind, par: &zzvParent{ctx: context.Background()}, store: &zzvStore{}}
+	w.par.mu.model = dirLock
 	switch kind {
 	case zzvKindFile:
 		w.node0 = dag.NodeWithData(ft.FilePBDataWithStat(nil, 0, zzvMode0, zzvTime0))
@@ -266,21 +287,31 @@ func zzvAwait(done chan struct{}) bool {
 
 // zzvPair runs op A and op B concurrently on a fresh file, then a final round of reads, and evaluates the
 // oracle. Returns the id of the first violated clause.
-func zzvPair(kind, opA, opB int) (bad string) {
+// With reps > 1 (native stress only) each goroutine repeats its operation reps times and only the liveness
+// clauses are evaluated.
+func zzvPair(kind, opA, opB, reps int) (bad string) {
 	check := func(id string, ok bool) {
 		if !ok && bad == "" {
 			bad = id
 		}
 	}
-	w := zzvNewWorld(kind)
+	w := zzvNewWorld(kind, opA == zzvOpDirSync || opB == zzvOpDirSync)
 	var ra, rb zzvRes
-	var wg sync.WaitGroup
-	wg.Add(2)
-	go func() { defer wg.Done(); ra = w.run(opA, 0) }()
-	go func() { defer wg.Done(); rb = w.run(opB, 1) }()
-	done := make(chan struct{})
-	go func() { wg.Wait(); close(done) }()
-	if !zzvAwait(done) {
+	// completion is signalled through one buffered channel: two scheduling points per goroutine
+	done := make(chan struct{}, 2)
+	go func() {
+		for i := 0; i < reps; i++ {
+			ra = w.run(opA, 0)
+		}
+		done <- struct{}{}
+	}()
+	go func() {
+		for i := 0; i < reps; i++ {
+			rb = w.run(opB, 1)
+		}
+		done <- struct{}{}
+	}()
+	if !zzvAwait(done) || !zzvAwait(done) {
 		return "C20.no-deadlock"
 	}
 
@@ -302,6 +333,9 @@ func zzvPair(kind, opA, opB int) (bad string) {
 	}()
 	if !zzvAwait(done2) {
 		return "C20.locks-released-after-operations"
+	}
+	if reps > 1 {
+		return ""
 	}
 
 	// ---- per-operation results
@@ -337,7 +371,7 @@ func zzvPair(kind, opA, opB int) (bad string) {
 	}
 	check("C20.final-node-readable", fin.node != nil && fin.syncErr == nil && fin.dirErr == nil)
 	if writers == 0 {
-		check("C20.readers-leave-node-unchanged", fin.node == w.node0)
+		check("C20.readers-leave-node-unchanged", zzvSameNode(fin.node, w.node0))
 	} else {
 		// the node is one that a writer installed, and it was handed to the DAG service first
 		check("C20.final-node-was-stored", w.store.has(fin.node))
@@ -371,13 +405,21 @@ func zzvPair(kind, opA, opB int) (bad string) {
 			if mb {
 				m = rb.mode
 			}
-			check("C20.setmode-visible-afterwards", fin.modeErr == nil && fin.mode == m)
+			id := "C20.setmode-visible-afterwards"
+			if ra.op == zzvOpOpenReadClose || rb.op == zzvOpOpenReadClose {
+				id = "C20.read-only-descriptor-keeps-acknowledged-metadata"
+			}
+			check(id, fin.modeErr == nil && fin.mode == m)
 		case ta || tb:
 			t := ra.mtime
 			if tb {
 				t = rb.mtime
 			}
-			check("C20.setmodtime-visible-afterwards", fin.mtErr == nil && fin.mtime.Equal(t))
+			id := "C20.setmodtime-visible-afterwards"
+			if ra.op == zzvOpOpenReadClose || rb.op == zzvOpOpenReadClose {
+				id = "C20.read-only-descriptor-keeps-acknowledged-metadata"
+			}
+			check(id, fin.mtErr == nil && fin.mtime.Equal(t))
 		}
 		// flushed descriptors: with a single writer the flushed node is the file's node
 		if writers == 1 && flushers == 1 {
@@ -388,7 +430,8 @@ func zzvPair(kind, opA, opB int) (bad string) {
 			}
 		}
 		// the parent directory was told about the acknowledged node (single writer that propagates)
-		if writers == 1 {
+		// (a read-only descriptor that re-installs its snapshot is reported by the clause above, not here)
+		if writers == 1 && ra.op != zzvOpOpenReadClose && rb.op != zzvOpOpenReadClose {
 			for _, r := range []zzvRes{ra, rb} {
 				if zzvIsWriter(r.op) && r.op != zzvOpOpenWriteClose && r.err == nil {
 					c, ok := w.par.last()
@@ -406,7 +449,10 @@ func zzvSameNode(a, b ipld.Node) bool {
 	if ok1 && ok2 {
 		return string(pa.Data()) == string(pb.Data()) && len(pa.Links()) == len(pb.Links())
 	}
-	return a == b
+	if a == nil || b == nil || ok1 != ok2 {
+		return a == b
+	}
+	return string(a.RawData()) == string(b.RawData())
 }
 
 // zzvModeOK: if r is a Mode() read, its value is the initial mode or the one the other operation wrote.
@@ -452,6 +498,7 @@ var zzvPairIDs = []string{
 	"C20.setmode-visible-afterwards",
 	"C20.setmodtime-visible-afterwards",
 	"C20.concurrent-setmode-and-setmodtime-both-kept",
+	"C20.read-only-descriptor-keeps-acknowledged-metadata",
 	"C20.flushed-node-visible-afterwards",
 	"C20.parent-told-about-final-node",
 }
@@ -464,12 +511,17 @@ func zzvPairs(lo, hi int) {
 	kind := verifrt.NondetRange("kind", 0, verifrt.Param("KINDS", 3)-1)
 	opA := verifrt.NondetRange("opA", lo, hi)
 	opB := verifrt.NondetRange("opB", 0, zzvNumOps-1)
-	bad := zzvPair(kind, opA, opB)
+	bad := zzvPair(kind, opA, opB, 1)
 	if !verifrt.Symbolic() {
 		defer runtime.GOMAXPROCS(runtime.GOMAXPROCS(8))
 		start := time.Now()
-		for i := 0; bad == "" && i < 2000000 && time.Since(start) < 30*time.Second; i++ {
-			bad = zzvPair(kind, opA, opB)
+		// state clauses: the pair as is, many times
+		for i := 0; bad == "" && i < 2000000 && time.Since(start) < 15*time.Second; i++ {
+			bad = zzvPair(kind, opA, opB, 1)
+		}
+		// liveness clauses: the two operations repeated back to back, so that they overlap all the time
+		for i := 0; bad == "" && i < 2000000 && time.Since(start) < 40*time.Second; i++ {
+			bad = zzvPair(kind, opA, opB, 2000)
 		}
 	}
 	for _, id := range zzvPairIDs {
@@ -483,3 +535,9 @@ func HarnessC20Readers() { zzvPairs(zzvOpMode, zzvOpGetNode) }
 func HarnessC20Meta()    { zzvPairs(zzvOpSetMode, zzvOpSync) }
 func HarnessC20Desc()    { zzvPairs(zzvOpOpenReadClose, zzvOpFileFlush) }
 func HarnessC20Misc()    { zzvPairs(zzvOpDirSync, zzvOpOpenNeither) }
+
+// the same with at most two pre-emptions (thorough tier)
+func HarnessC20Readers2() { zzvPairs(zzvOpMode, zzvOpGetNode) }
+func HarnessC20Meta2()    { zzvPairs(zzvOpSetMode, zzvOpSync) }
+func HarnessC20Desc2()    { zzvPairs(zzvOpOpenReadClose, zzvOpFileFlush) }
+func HarnessC20Misc2()    { zzvPairs(zzvOpDirSync, zzvOpOpenNeither) }
